@@ -5,7 +5,8 @@ open Atomica
 def handlers : List (String × (List String → Option String)) :=
   [ ("grid", Grid.handle),
     ("estep", Engine.handleStep), ("eflush", Engine.handleFlush), ("ewf", Engine.handleWf),
-    ("estepref", Engine.handleStepRef), ("eflushref", Engine.handleFlushRef) ]
+    ("estepref", Engine.handleStepRef), ("eflushref", Engine.handleFlushRef),
+    ("interp-linear", Series.handleLinear), ("interp-previous", Series.handlePrevious), ("series-insert", Series.handleInsert) ]
 
 /-- One request per line: `<kind> <args…>`; one canonical reply per line. -/
 def dispatch (line : String) : String :=
